@@ -86,14 +86,14 @@ def mk_sig(pb, cls, data, which=0, dask=False):
         data = da.from_array(data, chunks=(2,) + data.shape[1:])
     klass = getattr(pb, cls)
     if SUBCLASS_MODE["on"]:
-        klass = G.user_subclass(klass)
+        klass = G.user_subclass(klass, SUBCLASS_MODE["on"])
     return klass(data, **kw)
 
 
 def admits(cls, dtype):
     from ..contract import REQ_DTYPES
 
-    req = REQ_DTYPES[cls[2:] if cls.startswith("My") else cls]  # (a user subclass "My<Class>" has its base class's dtype contract)
+    req = REQ_DTYPES[cls[6:] if cls.startswith("MyCtor") else cls[2:] if cls.startswith("My") else cls]  # (a user subclass "My<Class>" has its base class's dtype contract)
     return req is None or np.dtype(dtype) in [np.dtype(r) for r in req]
 
 
@@ -370,11 +370,11 @@ def op_case(draw):
     other = draw(st.sampled_from(["sig", "sig_other_class", "arr", "arr_bcast", "scalar", "npscalar", "npscalar_wide", "quantity"]))
     return {"dtype": dt, "cls": cls, "shape": list(shape), "op": draw(st.sampled_from(sorted(BINOPS) + sorted(UNOPS))), "other": other,
             "order": draw(st.sampled_from(["sig_first", "sig_second"])), "salt": draw(st.integers(0, 50)), "dask": draw(st.integers(0, 4)) == 0,
-            "user_subclass": draw(st.integers(0, 7)) == 0}
+            "user_subclass": draw(st.sampled_from([False] * 6 + [True, "ctor"]))}
 
 
 def run_op(case, stt):
-    SUBCLASS_MODE["on"] = bool(case.get("user_subclass"))
+    SUBCLASS_MODE["on"] = case.get("user_subclass") or False
     try:
         if SUBCLASS_MODE["on"]:
             stt.label("user_subclass_operands")
